@@ -351,7 +351,7 @@ func (w *ssWorld) connect(o ssConnectOpts) bool {
 		// writer
 		var off int64
 		pending := first
-		flipped := false
+		flipped, noTail := false, false
 		for i, n := range append([]int{-1}, sPlan...) {
 			var out []byte
 			if i == 0 {
@@ -384,7 +384,30 @@ func (w *ssWorld) connect(o ssConnectOpts) bool {
 					if o.tamperPacket && !flipped && off+int64(k) > sTotal/2 {
 						flipped = true
 						tamperedAt = off
-						pkt[t.Draw("pflip", len(pkt))] ^= 1 << uint(t.Draw("pbit", 8))
+						at := t.Draw("pflip", len(pkt))
+						// nothing at all follows the modified packet in half the runs
+						// (silence, or the end of the stream): the modification must
+						// surface from what has arrived.  Not possible if the flip
+						// hits the encrypted length fields - the receiver may then be
+						// waiting for a longer packet - so those stay out of this variant.
+						noTail = t.Draw("pnotail", 2) == 1
+						if noTail && at >= 16 && at < 20 {
+							at = 20
+						}
+						pkt[at] ^= 1 << uint(t.Draw("pbit", 8))
+						if noTail {
+							// the rest of the plan is dropped: the modified packet is the last thing sent
+							sTotal = off + int64(k)
+							out = append(out, pkt...)
+							link.B.Write(out)
+							c.Feature("packet-bit-flipped-and-nothing-follows")
+							c.S.Count("fault.tamper-packet-bit", 1)
+							if t.Draw("pnotail.eof", 2) == 1 {
+								link.B.CloseWrite()
+							}
+							srvWrDone = true
+							return
+						}
 						c.Feature("packet-bit-flipped")
 						c.S.Count("fault.tamper-packet-bit", 1)
 					}
